@@ -365,6 +365,43 @@ pub fn run_scen(ctx: &Ctx) {
         sc.tags.push("c05:trailer_then_lone_burst".to_owned());
         emit(&mut out, &sc, &["c04", "c05", "c08"], true);
     }
+    // ---- damaged prefixes: bursts that agree only on a short prefix of `NNNN` / `ZCZC-` (the framer lets a
+    // prefix with up to two bit errors through): no message without two bursts agreeing on it
+    for _ in 0..(if ctx.tier_thorough { 6000 } else { 500 }) {
+        let mut sc = Scenario::new(100);
+        let lat = rng.range(24, 64);
+        let pause = *rng.pick(&pauses);
+        let trailer = rng.chance(2, 3);
+        let base: Vec<u8> = if trailer { b"NNNN".to_vec() } else { header_of_len(&mut rng, 0) };
+        let nb = rng.range(1, 3) as usize;
+        let mut t = 100 + rng.range(0, 500);
+        for k in 0..nb {
+            let mut x = base.clone();
+            match rng.below(4) {
+                0 => {}
+                1 => {
+                    x.truncate(rng.range(1, 4) as usize);
+                }
+                _ => {
+                    for _ in 0..rng.range(1, 2) {
+                        let i = rng.below(4.min(x.len() as u64)) as usize;
+                        x[i] ^= 1 << rng.below(7);
+                    }
+                }
+            }
+            if rng.chance(1, 3) {
+                x.extend((0..rng.range(0, 3)).map(|_| *rng.pick(TAIL_BYTES)));
+            }
+            let dur = 8 * (16 + x.len() as u64) + lat;
+            t += dur;
+            sc.bursts.push((format!("x{}", k), x.clone(), t, dur.saturating_sub(40)));
+            t += pause;
+        }
+        sc.finish();
+        sc.label = format!("damaged_prefix.trailer{}.n{}", trailer as u8, nb);
+        sc.tags.push("c04:damaged_prefix".to_owned());
+        emit(&mut out, &sc, &["c04", "c08"], true);
+    }
     out.finish(&ctx.out_dir, "asmscen", &[]);
 }
 
@@ -408,7 +445,23 @@ pub fn run_seq(ctx: &Ctx) {
                             x.extend((0..rng.below(6)).map(|_| *rng.pick(TAIL_BYTES)));
                             x
                         }
-                        10 => vec![],
+                        10 => {
+                            if rng.chance(1, 2) {
+                                vec![]
+                            } else {
+                                // a trailer / header with a damaged or cut prefix
+                                let mut x = if rng.chance(2, 3) { b"NNNN".to_vec() } else { a.clone() };
+                                if rng.chance(1, 3) {
+                                    x.truncate(rng.range(1, 4) as usize);
+                                } else {
+                                    for _ in 0..rng.range(1, 2) {
+                                        let i = rng.below(4) as usize;
+                                        x[i] ^= 1 << rng.below(7);
+                                    }
+                                }
+                                x
+                            }
+                        }
                         _ => (0..rng.range(1, 300)).map(|_| *rng.pick(CALL_CHARS)).collect(),
                     };
                     out.run(&format!("asm.burst {} {}", hex(&burst), t), true);
